@@ -216,7 +216,32 @@ class Gen9(progen.Gen):
         ctxargs = sorted(n for n in getattr(fn, 'ctxargs', ()) if n in fn.env)
         w = 0.30 if self.lift_bias else 0.08
         if depth > 0 and self.p.with_blocks and ch.bool(w):
-            k = ch.weighted([(3, 'def'), (5, 'use'), (3, 'upd'), (3, 'loopvar'), (2, 'asname'), (2, 'ctxassign')])
+            k = ch.weighted([(3, 'def'), (5, 'use'), (3, 'upd'), (3, 'loopvar'), (2, 'asname'), (2, 'ctxassign'), (4, 'variant-loop')])
+            if k == 'variant-loop' and depth > 1:
+                # the whole pattern in one piece: a constructor whose argument changes on every iteration (must stay in
+                # the loop), feeding a variable that later code is likely to read
+                n = fn.fresh('n')
+                out.append(f'{ind}{n} = {ch.int(2, 4)}')
+                vs = [v for v in self.vars_of(fn, 'R') if v not in fn.protected]
+                acc = ch.choice(vs) if vs else fn.fresh('v')
+                if not vs:
+                    out.append(f'{ind}{acc} = {self.expr_R(fn, 1)}')
+                    fn.env[acc] = 'R'
+                fn.env[n] = 'R'
+                fn.protected.add(n)
+                i = fn.fresh('i')
+                out.append(f'{ind}for {i} in range({ch.int(2, 4)}):')
+                rm = ch.choice(self.p.rm_pool)
+                arg = ch.choice([n, n, f'{n} + 1'])
+                out.append(f'{ind}    with fp.MPFloatContext({arg}, fp.RM.{rm}):')
+                out.append(f'{ind}        {acc} = {acc} / 3 + {self.expr_R(fn, 0)}')
+                if ch.bool(0.5):
+                    out.append(f'{ind}    with fp.REAL:')
+                    out.append(f'{ind}        {n} = {n} + 1')
+                else:
+                    out.append(f'{ind}    {n} = {n} + 1')
+                self.features.update({'ctxarg-loop-variant', 'ctxarg-redefined', 'ctor-reads-local', 'with-inside-loop', 'with', 'for'})
+                return False
             if k == 'ctxassign':
                 # a context built by a plain assignment (its arguments are computed under the ACTIVE context), used later
                 text, safe = self.ctx_text(fn)
